@@ -263,9 +263,15 @@ func (e *Engine) solve(o *Obligation, outDir string, idx int, timeoutS int, both
 	if outDir == "" {
 		outDir = os.TempDir()
 	}
-	res.File = filepath.Join(outDir, fmt.Sprintf("%05d.smt2", idx))
-	_ = os.WriteFile(res.File, []byte("; "+o.Name()+"\n; "+o.Pos+"\n"+script), 0o644)
+	// The query is written to disk only when a solver has to read it, and kept only when it was not discharged
+	// (GOVC_KEEP_VC=1 keeps everything): tens of thousands of queries of up to 200 kB each fill a disk otherwise.
+	vcFile := filepath.Join(outDir, fmt.Sprintf("%05d.smt2", idx))
+	writeVC := func() {
+		res.File = vcFile
+		_ = os.WriteFile(vcFile, []byte("; "+o.Name()+"\n; "+o.Pos+"\n"+script), 0o644)
+	}
 	if len(script) > vcCap() {
+		writeVC()
 		res.Status = "toolarge"
 		return res
 	}
@@ -274,7 +280,10 @@ func (e *Engine) solve(o *Obligation, outDir string, idx int, timeoutS int, both
 	if c, ok := scache.m[h]; ok {
 		scache.mu.Unlock()
 		r := *c
-		r.File = res.File
+		if r.Status != "unsat" && !(r.Status == "sat" && o.Cover) {
+			writeVC()
+			r.File = res.File
+		}
 		return &r
 	}
 	scache.mu.Unlock()
@@ -307,6 +316,7 @@ func (e *Engine) solve(o *Obligation, outDir string, idx int, timeoutS int, both
 		}
 		use = append(use, sp)
 	}
+	writeVC()
 	ctx, cancel := context.WithCancel(context.Background())
 	defer cancel()
 	type ans struct {
@@ -370,6 +380,11 @@ func (e *Engine) solve(o *Obligation, outDir string, idx int, timeoutS int, both
 	// reachability (cover) queries need only the answer `sat`, no model: they are memoised too
 	if cacheFile != "" && (res.Status == "unsat" || (res.Status == "sat" && o.Cover)) {
 		_ = os.WriteFile(cacheFile, []byte(fmt.Sprintf("%s %.3f %s\n", res.Status, res.Seconds, res.Solver)), 0o644)
+	}
+	if (res.Status == "unsat" || (res.Status == "sat" && o.Cover)) && os.Getenv("GOVC_KEEP_VC") == "" {
+		_ = os.Remove(res.File)
+		_ = os.Remove(strings.TrimSuffix(res.File, ".smt2") + ".abs.smt2")
+		res.File = ""
 	}
 	scache.mu.Lock()
 	scache.m[h] = res
